@@ -267,9 +267,7 @@ pub fn render(flat: &Flat, cfg: &LayoutCfg, rng: &mut Rng) -> Rendered {
                 Mode::Wide => {
                     // optional comment in the gap (class "other" unless the gap is a slot)
                     let is_slot = ft.slot_before;
-                    let allow_gap_comment = !is_slot
-                        && !ft.in_ifdata_gap()
-                        && !(kind == TK::Tag && ft.tok.text == "A2ML");
+                    let allow_gap_comment = !is_slot && !ft.in_ifdata_gap();
                     let pct = if ft.file_level {
                         cfg.file_comment_pct
                     } else {
